@@ -154,7 +154,7 @@ def cases(ctx: common.Ctx, n_prog: int, n_sched: int) -> Iterator[dict[str, Any]
 def run(ctx: common.Ctx) -> None:
     quick = ctx.tier == "quick"
     scale = float(os.environ.get("VERIF_SCALE", "1"))
-    n_prog, n_sched = (max(2, int(8 * scale)), 3) if quick else (max(4, int(60 * scale)), 8)
+    n_prog, n_sched = (max(2, int(8 * scale)), 3) if quick else (max(4, int(30 * scale)), 6)
     ctx.rule = ("generated import graphs (chain / fan / diamond / mixed DAG / with 2-module cycles; 10-60 modules, several errors that "
                 "depend on imported interfaces) x N in 1..8 x schedules (seeded delays at message/commit boundaries, permuted "
                 "free-worker choice, shuffled ready order, batch size one/all/default) x both stores; cold and after an interface "
